@@ -285,6 +285,26 @@ class _Subst(ast.NodeTransformer):
     def visit_arg(self, n):
         return n
 
+    def _inner(self, bound_here):
+        return _Subst({k: v for k, v in self.mapping.items() if k not in bound_here}, {k: v for k, v in self.renames.items() if k not in bound_here})
+
+    def visit_FunctionDef(self, n):
+        # the function's own name is a local of the enclosing body; its parameters and locals shadow the outer names
+        if n.name in self.renames:
+            n.name = self.renames[n.name]
+        n.decorator_list = [self.visit(d) for d in n.decorator_list]
+        n.args.defaults = [self.visit(d) for d in n.args.defaults]
+        n.args.kw_defaults = [self.visit(d) if d is not None else None for d in n.args.kw_defaults]
+        inner = self._inner(set(params_of(n)) | _stored_names(n.body))
+        n.body = [inner.visit(st) for st in n.body]
+        return n
+
+    def visit_Lambda(self, n):
+        n.args.defaults = [self.visit(d) for d in n.args.defaults]
+        n.args.kw_defaults = [self.visit(d) if d is not None else None for d in n.args.kw_defaults]
+        n.body = self._inner(set(params_of(n))).visit(n.body)
+        return n
+
 
 def _strip_parents(node):
     for n in ast.walk(node):
